@@ -455,15 +455,15 @@ func c12(c *an.Ctx) {
 
 	c.Check("R-WHO", "the raw connection (DB.Conn, QueryExecer), batchFetch and the limit fields are used only by the allow-listed functions", 15, func(o *an.O) {
 		allowConn := map[string]string{
-			"sqlgen.NewDB":                    "constructor stores the connection",
-			"sqlgen.NewDB$1":                  "batchFetch.Many runs the combined SELECT (filters were checked before Invoke)",
-			"sqlgen.(*DB).WithTx":             "BeginTx sends no table statement; context key",
-			"sqlgen.(*DB).WithExistingTx":     "context key only",
-			"sqlgen.(*DB).HasTx":              "context key only",
-			"sqlgen.(*DB).QueryExecer":        "documented escape hatch returning the handle (callers listed separately)",
-			"livesql.NewBinlog":               "hands the connection to NewBinlogWithSource: server variables / binlog position only",
-			"livesql.(*Binlog).getColumnMap":  "information_schema column lookup for binlog decoding",
-			"livesql.(*LiveDB).Close":         "closes the connection",
+			"sqlgen.NewDB":                   "constructor stores the connection",
+			"sqlgen.NewDB$1":                 "batchFetch.Many runs the combined SELECT (filters were checked before Invoke)",
+			"sqlgen.(*DB).WithTx":            "BeginTx sends no table statement; context key",
+			"sqlgen.(*DB).WithExistingTx":    "context key only",
+			"sqlgen.(*DB).HasTx":             "context key only",
+			"sqlgen.(*DB).QueryExecer":       "documented escape hatch returning the handle (callers listed separately)",
+			"livesql.NewBinlog":              "hands the connection to NewBinlogWithSource: server variables / binlog position only",
+			"livesql.(*Binlog).getColumnMap": "information_schema column lookup for binlog decoding",
+			"livesql.(*LiveDB).Close":        "closes the connection",
 		}
 		allowExecer := map[string]string{
 			"sqlgen.(*DB).BaseQuery": "after checkFilterAgainstLimits", "sqlgen.(*DB).Count": "after checkFilterAgainstLimits",
